@@ -75,7 +75,8 @@ type litWrite struct {
 type effSummary struct {
 	litWrites    map[string]litWrite // writes rooted at a parameter of a function literal of this function
 	writes       map[string]effWrite
-	returnsFresh bool
+	returnsFresh bool // nothing reachable from the result is shared with a caller-visible object
+	returnsNew   bool // the result itself is newly allocated (it may embed pointers handed in)
 	conc         []string // go statements, channel operations, sync/atomic use
 	extCalls     map[string]extCall
 }
@@ -94,6 +95,7 @@ type effEngine struct {
 	c        *Ctx
 	sum      map[*core.FuncInfo]*effSummary
 	visiting map[types.Object]bool
+	shallow  bool // composite literals are new storage whatever they embed (first pass, for returnsNew)
 }
 
 // externalEffects: external callees that write through an argument
@@ -156,6 +158,18 @@ func effects(c *Ctx) *effEngine {
 		e.sum[fi] = &effSummary{writes: map[string]effWrite{}, extCalls: map[string]extCall{}, litWrites: map[string]litWrite{}}
 	}
 	// returns-fresh first (needed by freshness of locals)
+	// shallow first: "returns a newly allocated object" (whatever it points to), for PURE-NEWFRESH
+	e.shallow = true
+	for iter := 0; iter < 4; iter++ {
+		for _, fi := range funcs {
+			e.sum[fi].returnsFresh = e.computeReturnsFresh(fi)
+		}
+	}
+	for _, fi := range funcs {
+		e.sum[fi].returnsNew = e.sum[fi].returnsFresh
+		e.sum[fi].returnsFresh = false
+	}
+	e.shallow = false
 	for iter := 0; iter < 4; iter++ {
 		for _, fi := range funcs {
 			e.sum[fi].returnsFresh = e.computeReturnsFresh(fi)
@@ -214,11 +228,30 @@ func (e *effEngine) freshExpr(fi *core.FuncInfo, x ast.Expr, depth int) bool {
 	info := fi.Pkg.TypesInfo
 	switch v := core.Unparen(x).(type) {
 	case *ast.CompositeLit:
+		// deep: a literal that embeds a pointer (slice, map) handed in from elsewhere is new storage only down to
+		// that member — what is reached through it belongs to whoever owns the pointee
+		for _, el := range v.Elts {
+			if e.shallow {
+				break
+			}
+			val := el
+			if kv, isKV := el.(*ast.KeyValueExpr); isKV {
+				val = kv.Value
+			}
+			if t := info.TypeOf(val); t != nil && pointerLike(t) && !e.freshExpr(fi, val, depth+1) {
+				return false
+			}
+		}
 		return true
+	case *ast.StarExpr:
+		// *p as a value: a copy of the pointee (shallow, like any struct copy)
+		if t := info.TypeOf(v); t != nil && !pointerLike(t) {
+			return true
+		}
 	case *ast.UnaryExpr:
 		if v.Op == token.AND {
-			if _, ok := core.Unparen(v.X).(*ast.CompositeLit); ok {
-				return true
+			if lit, ok := core.Unparen(v.X).(*ast.CompositeLit); ok {
+				return e.freshExpr(fi, lit, depth+1)
 			}
 			// address of a fresh local (e.g. &sch where var sch T)
 			if id, ok := core.Unparen(v.X).(*ast.Ident); ok {
@@ -245,7 +278,7 @@ func (e *effEngine) freshExpr(fi *core.FuncInfo, x ast.Expr, depth int) bool {
 					// deep: a fresh slice that holds pointers handed in from elsewhere is not fresh storage — what is
 					// reached through its elements belongs to whoever owns the pointees
 					for _, el := range v.Args[1:] {
-						if t := info.TypeOf(el); t != nil && (pointerLike(t) || core.IsSlice(t) && v.Ellipsis.IsValid()) && !e.freshExpr(fi, el, depth+1) {
+						if t := info.TypeOf(el); t != nil && (pointerLike(t) || core.IsSlice(t) && v.Ellipsis.IsValid() || isRecordLit(el) && hasPointers(t)) && !e.freshExpr(fi, el, depth+1) {
 							return false
 						}
 					}
@@ -421,6 +454,9 @@ func (e *effEngine) recordWrite(fi *core.FuncInfo, target ast.Expr, how string, 
 		p2 := e.c.P.PathOf(fi, target, false)
 		p = p2
 	}
+	if os.Getenv("VERIF_DEBUG_EFF") == fi.Name() {
+		fmt.Fprintf(os.Stderr, "DEBUG recordWrite %s target=%s path=%v rel=%d how=%s\n", fi.QName(), exprStr(target), p, len(rel), how)
+	}
 	// a local with several definitions: the store may hit any of the things it aliases
 	if p != nil && p.Root != nil && len(via) < 12 {
 		if _, isParam := e.paramIndex(fi, p.Root); !isParam {
@@ -478,6 +514,50 @@ func (e *effEngine) aliasTargets(fi *core.FuncInfo, p *core.Path) []*core.Path {
 		switch d.Kind {
 		case core.DefAssign:
 			if e.freshExpr(fi, d.Expr, 0) {
+				continue
+			}
+			// a table built by append: x = append(x, rec…) — an element of x is one of the appended values; when
+			// the value is a record literal, what is reached through a member is what that member was built from
+			if call, isCall := core.Unparen(d.Expr).(*ast.CallExpr); isCall && isBuiltin(fi.Pkg.TypesInfo, call, "append") && len(call.Args) > 1 && !call.Ellipsis.IsValid() && len(p.Steps) > 0 && p.Steps[0].Field == nil {
+				for _, el := range call.Args[1:] {
+					rest := p.Steps[1:]
+					target := core.Unparen(el)
+					lit := target
+					if u, isAddr := lit.(*ast.UnaryExpr); isAddr && u.Op == token.AND {
+						lit = core.Unparen(u.X)
+					}
+					if cl, isLit := lit.(*ast.CompositeLit); isLit {
+						st, isStruct := structOf(fi.Pkg.TypesInfo.TypeOf(cl))
+						if !isStruct || len(rest) == 0 || rest[0].Field == nil {
+							continue
+						}
+						var val ast.Expr
+						for i, fe := range cl.Elts {
+							if kv, isKV := fe.(*ast.KeyValueExpr); isKV {
+								if id, isId := kv.Key.(*ast.Ident); isId && id.Name == rest[0].Field.Name() {
+									val = kv.Value
+								}
+							} else if i < st.NumFields() && st.Field(i) == rest[0].Field {
+								val = fe
+							}
+						}
+						if val == nil || !pointerLike(rest[0].Field.Type()) {
+							continue
+						}
+						target, rest = core.Unparen(val), rest[1:]
+					}
+					if e.freshExpr(fi, target, 0) {
+						continue
+					}
+					tb := e.c.P.PathOf(fi, target, true)
+					if tb == nil || tb.Root == p.Root {
+						continue
+					}
+					q := *tb
+					q.Steps = append(append([]core.Step{}, tb.Steps...), rest...)
+					q.Copied = false
+					out = append(out, &q)
+				}
 				continue
 			}
 			base = e.c.P.PathOf(fi, d.Expr, true)
@@ -931,4 +1011,14 @@ func structOf(t types.Type) (*types.Struct, bool) {
 	}
 	st, ok := t.Underlying().(*types.Struct)
 	return st, ok
+}
+
+// isRecordLit: a struct literal (or its address) written in place.
+func isRecordLit(e ast.Expr) bool {
+	e = core.Unparen(e)
+	if u, ok := e.(*ast.UnaryExpr); ok && u.Op == token.AND {
+		e = core.Unparen(u.X)
+	}
+	_, ok := e.(*ast.CompositeLit)
+	return ok
 }
